@@ -206,7 +206,9 @@ def check(case):
     from ..model_timing import simfile_text
     from .c11 import edit_in_place
 
-    td = TimingData(SSCSimfile(string=simfile_text(tl)))
+    from ..model_timing import timing_data
+
+    td = timing_data(tl)
     TimingEngine(td).beat_at(1.0)
     tl_b = edit_in_place(tl, td, "replace")
     _m3, _a3, ev3 = run_clauses(tl_b, free[:6], f"(engine built from a TimingData object edited in place, originally {tl})", engine=TimingEngine(td))
@@ -214,7 +216,7 @@ def check(case):
 
     labs = set(m.coincidences())
     strong = {l for l in labs if l.startswith(("stop-", "delay-", "same-beat", "warps-"))}
-    return Verdict(nontrivial=bool(strong), labels=sorted(labs) + (["redundant-bpm"] if ins else []), evals=evals, key=tl)
+    return Verdict(nontrivial=bool(strong), labels=sorted(labs) + (["redundant-bpm"] if ins else []) + ["source:" + (tl.get("source") or "ssc")], evals=evals, key=tl)
 
 
 @st.composite
